@@ -136,6 +136,8 @@ def case_constrained(fam, rep):
                 b = fem.dof.symmetry(field[0])
                 b["right"] = fem.Boundary(field[0], fx=float(L[0]))
             k = int(rng.integers(1, 13))
+            nfree = len(fem.dof.partition(field, b)[1])
+            k = max(1, min(k, nfree - 2))  # ARPACK needs k < N
             job = fem.FreeVibration([solid], b).evaluate(k=k)
             for n in range(k):
                 job.extract(n, inplace=False)
